@@ -35,3 +35,7 @@ def run(tier):
         "known finding: the executor always issues changeTo (known_findings.txt, task/wrong-kind)",
     ]
     return chk
+
+
+def replay(path):
+    return en.replay(path)
